@@ -36,8 +36,12 @@ pub struct SliceArray {
 }
 
 impl SliceArray {
-	fn map_idx(&self, index: usize) -> usize {
-		self.from as usize + self.step as usize * index
+	/// Index into the underlying array, `None` if out of bounds of the slice
+	fn map_idx(&self, index: usize) -> Option<usize> {
+		if index >= self.len() {
+			return None;
+		}
+		Some(self.from as usize + self.step as usize * index)
 	}
 }
 impl ArrayLike for SliceArray {
@@ -46,15 +50,18 @@ impl ArrayLike for SliceArray {
 	}
 
 	fn get(&self, index: usize) -> Result<Option<Val>> {
-		self.inner.get(self.map_idx(index))
+		let Some(index) = self.map_idx(index) else {
+			return Ok(None);
+		};
+		self.inner.get(index)
 	}
 
 	fn get_lazy(&self, index: usize) -> Option<Thunk<Val>> {
-		self.inner.get_lazy(self.map_idx(index))
+		self.inner.get_lazy(self.map_idx(index)?)
 	}
 
 	fn get_cheap(&self, index: usize) -> Option<Val> {
-		self.inner.get_cheap(self.map_idx(index))
+		self.inner.get_cheap(self.map_idx(index)?)
 	}
 	fn is_cheap(&self) -> bool {
 		self.inner.is_cheap()
